@@ -599,6 +599,11 @@ Theorem ops_From_P_U (x0 : pd) :
   run_val c (g_From_P_U c) [("was", MV (VPD x0))] = apply_op c 29 [VPD x0].
 Proof. unit_tac c. Qed.
 
+(* impl TryFrom<Unit> for PositionDerivative *)
+Theorem ops_TryFrom_U_P (x0 : unit_) :
+  run_try c (g_TryFrom_U_P c) [("was", MV (VU x0))] = apply_op c 28 [VU x0].
+Proof. unit_tac c. Qed.
+
 (* Unit::new *)
 Theorem ops_U_new (x0 : Z) (x1 : Z) :
   run_val c (g_U_new c) [("millimeter_exp", MV (VI x0)); ("second_exp", MV (VI x1))] = apply_op c 34 [VI x0; VI x1].
@@ -753,6 +758,7 @@ Print Assumptions ops_MulAssign_UU.
 Print Assumptions ops_DivAssign_UU.
 Print Assumptions ops_Neg_U.
 Print Assumptions ops_From_P_U.
+Print Assumptions ops_TryFrom_U_P.
 Print Assumptions ops_U_new.
 Print Assumptions ops_U_eq_assume_true.
 Print Assumptions ops_U_eq_assume_false.
